@@ -96,11 +96,11 @@ def judge_sockets(case):
     lib = H.lib_exceptions()
     for k, conn in enumerate(case["conns"]):
         source, segs, take = conn["source"], conn["segs"], conn.get("take")
-        sock = SegSocket(source, segs)
+        sock = SegSocket(conn.get("wire", source), segs)
         raws = []
         try:
             rdr = RTCMReader(sock, validate=1, quitonerror=case.get("q", 0),
-                             bufsize=case.get("bufsize", 4096))
+                             bufsize=case.get("bufsize", 4096), encoding=conn.get("encoding", 0))
             for _ in range(len(source) + 8):
                 if take is not None and len(raws) >= take:
                     break
@@ -125,7 +125,7 @@ def judge_sockets(case):
     return out
 
 
-ITER_OPS = ("read", "next", "for1", "for2", "forall", "iternext")
+ITER_OPS = ("read", "next", "for1", "for2", "forall", "iternext", "rebind")
 
 
 def judge_iter(case):
@@ -160,6 +160,9 @@ def judge_iter(case):
                     got(*next(rdr))
                 except StopIteration:
                     pass
+            elif op == "rebind":
+                # the caller drops this reader and builds a new one over the SAME stream object
+                rdr = RTCMReader(stream, validate=1, quitonerror=0)
             elif op == "iternext":
                 try:
                     got(*next(iter(rdr)))
@@ -240,6 +243,22 @@ def kind_cases(tier):
             for sa in ([], [1] * len(src), [len(e["data"])]):
                 out.append({"family": "sockets", "name": f"{e['name']}+{a['name']}/{len(sa)}",
                             "conns": [{"name": e["name"] + "+" + a["name"], "source": src, "segs": sa}]})
+    # chunked transfer coding over a socket: the decoded stream is the source, every two-way split
+    # of the encoded stream (and byte-wise delivery) is tried
+    def chunked(data, size):
+        w = b""
+        for k in range(0, len(data), size):
+            part = data[k:k + size]
+            w += f"{len(part):x}".encode() + b"\r\n" + part + b"\r\n"
+        return w + b"0\r\n\r\n"
+
+    for k, m in enumerate(multi[:2]):
+        for size in (len(m), 11, 30):
+            wire = chunked(m, size)
+            for sa in [[]] + [[c] for c in range(1, len(wire))] + [[1] * len(wire)]:
+                out.append({"family": "sockets", "name": f"chunked{size}/multi{k}/{sa[:1]}",
+                            "conns": [{"name": f"chunked multi{k}", "source": m, "wire": wire, "segs": sa,
+                                       "encoding": 1}]})
     depth = 3 if tier == "quick" else 4
     for kind in ("bytesio", "buffered"):
         for m in multi:
